@@ -161,6 +161,14 @@ func TestVerif_C18Keys(t *testing.T) {
 	// a StringKey that is not injective: different keys collide in the hash but must not alias
 	kFamily(tr, "struct_strkey_colliding", []kTenant{{"a", 1}, {"a", 2}, {kMkStr("a"), 1}, {"b", 1}, {"a", 3}},
 		[]int{1, 2, 1, 3, 4}, func(k kTenant) string { return k.Tenant })
+	// a StringKey that yields the empty string for some keys (zero value): equal keys whose empty
+	// strings come from different backing arrays
+	e1 := kMkStr("xyz")[:0]
+	e2 := strings.TrimSpace("   ")
+	kFamily(tr, "struct_strkey_empty", []kTenant{{"", 7}, {e1, 7}, {e2, 7}, {kMkStr(), 7}, {"", 8}, {"q", 7}},
+		[]int{1, 1, 1, 1, 2, 3}, func(k kTenant) string { return k.Tenant })
+	kFamily(tr, "string_strkey_empty", []string{"", e1, e2, s1[2:2], "z"},
+		[]int{1, 1, 1, 1, 2}, func(k string) string { return k })
 
 	// colliding keys in a loading cache: concurrent loads must not share results
 	for round := 0; round < 30; round++ {
